@@ -183,15 +183,23 @@ func runCB(x *X) {
 			x.Do("trip", func() { doExec(cbOp{kind: "exec", outcome: "fail"}) }, onErr)
 			x.Do("state", func() { stt = cb.State() }, onErr)
 		}
-		if !x.dead {
+		// one or two rounds: trials of the first round may still be in flight (longer than the
+		// timeout) when the breaker has re-opened and the second round starts a new episode
+		rounds := 1 + c.Intn(2, "burst-rounds")
+		for r := 0; r < rounds && !x.dead; r++ {
 			x.Advance(timeout+time.Millisecond, onErr)
 			nb := 2 + c.Intn(3, "burst-n")
 			for k := 0; k < nb; k++ {
-				op := cbOp{kind: "exec", outcome: []string{"ok", "ok", "fail"}[c.Intn(3, "burst-outcome")], dur: time.Duration(c.Intn(3, "burst-dur")) * 100 * time.Millisecond}
+				durs := []time.Duration{0, 100 * time.Millisecond, 200 * time.Millisecond, timeout + 50*time.Millisecond, 2*timeout + 100*time.Millisecond}
+				op := cbOp{kind: "exec", outcome: []string{"ok", "ok", "fail"}[c.Intn(3, "burst-outcome")], dur: durs[c.Intn(len(durs), "burst-dur")]}
 				s.Spawn("burst", func() { doExec(op) })
 			}
-			ok = x.RunTasks(onErr)
+			// let the short ones finish; the long ones stay in flight across the next timeout
+			x.Advance(300*time.Millisecond, onErr)
 			x.Probe("boundary-burst")
+		}
+		if !x.dead {
+			ok = x.RunTasks(onErr)
 		}
 	}
 	if ok {
